@@ -66,7 +66,7 @@ check("C14", "model_checking",
 SEQ_NOTE = ("Trusted: the in-memory directory model in atomic mode (one call runs to completion), model/refdb, model/fmtspec. "
             "Bounds as stated per check; every node of the search is reached by replaying its shortest history from scratch on fresh real objects (no cloning).")
 check("C07", "model_checking",
-      "Explicit-state search over histories of one handle: alphabet {set, delete, symref, peeled tag on two refs, append log, delete newest log} interleaved with compaction of EVERY contiguous range of the current stack and CompactAll (quick: <=3 transactions and <=2 compactions, plus 4 transactions and 1 compaction, plus auto-compacting histories of 5 transactions; thorough: one more transaction and five write configurations). After every transaction the full scan through Stack.Merged() must equal the reference map; after every compaction it must be identical to the scan before; the compacted table must decode (independent decoder) to the newest-wins overlay of its inputs with ref tombstones dropped only if the range includes the oldest table.",
+      "Explicit-state search over histories of one handle: alphabet {set, delete, symref, peeled tag on two refs, append log, delete newest log} interleaved with compaction of EVERY contiguous range of the current stack and CompactAll (quick: <=3 transactions and <=2 compactions, plus 4 transactions and 1 compaction, plus auto-compacting histories of 5 transactions; thorough: one more transaction and five write configurations). After every transaction the full scan through Stack.Merged() must equal the reference map; after every compaction it must be identical to the scan before; the compacted table must decode (independent decoder) to the newest-wins overlay of its inputs with ref tombstones dropped only if the range includes the oldest table. For short histories the first compaction is additionally re-run with each of its filesystem calls (reads and writes included) failing with EIO in turn: failed or not, the view must be unchanged and a fresh handle must agree.",
       SEQ_NOTE, "explicit-state search (DFS with state dedup on table contents) over operation sequences of the real Stack against a reference map", "DESIGN.md 5.3, 6/C07", "seqbfs")
 check("C09", "model_checking",
       "Explicit-state search over histories of 2-3 handles on one directory (auto-compacting and not; one family with handles of different hash types): alphabet per handle {Add, retry of a failed Add, NewAddition+Close, CompactAll, Clean, hold the list lock (open Addition), release it}, depth 7 for two handles and 5 for three (thorough 9 / 7). While another handle holds the lock every write must fail with ErrLockFailure and change nothing, and a failed Add must still leave the handle refreshed. With the reference notion of staleness (handle's table names != tables.list): a stale Add/NewAddition must return ErrLockFailure, a stale CompactAll must change nothing, a stale Clean must fail, the directory hash must be unchanged; after a failed Add UpToDate() holds, NextUpdateIndex() exceeds every committed index and the immediate retry succeeds; non-stale calls behave as the reference map says.",
